@@ -15,6 +15,7 @@ import VerdeModel.Model.Blocks
 import Mathlib.Algebra.BigOperators.Group.List.Basic
 import VerdeModel.Lemmas.Hull
 import Mathlib.Analysis.Convex.Hull
+import VerdeModel.Gen.Mask
 namespace Verde.C16
 open Verde
 
@@ -227,6 +228,60 @@ theorem isConvComb_iff_mem_convexHull (S : List Pt) (p : Pt) :
 theorem inHull_iff_mem_convexHull (S : List Pt) (p : Pt) (hnd : NonDegenerate S) :
     inHull S p = true ↔ p ∈ convexHull ℚ {x : ℚ × ℚ | x ∈ S} := by
   rw [inHull_iff_convex_combination S p hnd, isConvComb_iff_mem_convexHull]
+
+/-! ## The regenerated source (Gen/Mask.lean, translated from mask.py on every run) equals the model -/
+
+theorem zip_normalised (a b : List Rat) (mx sx my sy : Rat) :
+    (a.map fun v => (v - mx) / sx).zip (b.map fun v => (v - my) / sy) = (a.zip b).map (normalise mx sx my sy) := by
+  rw [List.zip_map]
+  apply List.map_congr_left
+  intro p _
+  rfl
+
+theorem convexHullMask_normalise (mx sx my sy : Rat) (hsx : 0 < sx) (hsy : 0 < sy) (S Q : List Pt) :
+    convexHullMask (S.map (normalise mx sx my sy)) (Q.map (normalise mx sx my sy)) = convexHullMask S Q := by
+  unfold convexHullMask
+  rw [List.map_map]
+  apply List.map_congr_left
+  intro q _
+  exact inHull_normalise mx sx my sy hsx hsy S q
+
+/-- the two coordinate arrays after the optional projection -/
+def projected (proj : Option Proj) (e n : List Rat) : List Rat × List Rat :=
+  match proj with
+  | some p => (((e.zip n).map fun q => (p.apply q).1), ((e.zip n).map fun q => (p.apply q).2))
+  | none => (e, n)
+
+theorem gen_convexhull_mask_eq_model (std : List Rat → Rat) (de dn qe qn : List Rat) (drest qrest : List (List Rat)) (proj : Option Proj)
+    (hse : 0 < std (projected proj de dn).1) (hsn : 0 < std (projected proj de dn).2) :
+    Gen.convexhullMask std (de :: dn :: drest) (qe :: qn :: qrest) (proj.map Proj.apply)
+      = convexHullMask ((projected proj de dn).1.zip (projected proj de dn).2) ((projected proj qe qn).1.zip (projected proj qe qn).2) := by
+  unfold Gen.convexhullMask
+  cases proj with
+  | none =>
+    simp only [projected] at hse hsn ⊢
+    simp only [Option.map_none, List.take_succ_cons, List.take_zero, List.map_cons, List.map_nil, zip3With, delaunayContains,
+      List.getD_cons_zero, List.getD_cons_succ, zip_normalised]
+    exact convexHullMask_normalise _ _ _ _ hse hsn _ _
+  | some p =>
+    simp only [projected] at hse hsn ⊢
+    simp only [Option.map_some, List.take_succ_cons, List.take_zero, applyProjTbl, List.getD_cons_zero, List.getD_cons_succ,
+      List.map_cons, List.map_nil, zip3With, delaunayContains, zip_normalised]
+    exact convexHullMask_normalise _ _ _ _ hse hsn _ _
+
+/-- **C16 about the source as it is now:** entry `i` of what the regenerated `convexhull_mask` returns is true exactly when query point `i`
+    (projected, if a projection is given) lies in the convex hull (Mathlib's `convexHull ℚ`) of the (projected) data points, boundary
+    included — for data that are not all collinear and any `std` that is positive on the two data arrays. -/
+theorem src_convexhull_mask_iff (std : List Rat → Rat) (de dn qe qn : List Rat) (drest qrest : List (List Rat)) (proj : Option Proj)
+    (hse : 0 < std (projected proj de dn).1) (hsn : 0 < std (projected proj de dn).2)
+    (hnd : NonDegenerate ((projected proj de dn).1.zip (projected proj de dn).2)) (i : Nat) (q : Pt)
+    (hq : ((projected proj qe qn).1.zip (projected proj qe qn).2)[i]? = some q) :
+    (Gen.convexhullMask std (de :: dn :: drest) (qe :: qn :: qrest) (proj.map Proj.apply))[i]? = some true ↔
+      q ∈ convexHull ℚ {x : ℚ × ℚ | x ∈ (projected proj de dn).1.zip (projected proj de dn).2} := by
+  rw [gen_convexhull_mask_eq_model std de dn qe qn drest qrest proj hse hsn, ← inHull_iff_mem_convexHull _ q hnd]
+  unfold convexHullMask
+  rw [List.getElem?_map, hq]
+  simp
 
 /-! Non-vacuity -/
 example : NonDegenerate [(0, 0), (4, 0), (0, 4), (4, 4)] :=
